@@ -19,7 +19,11 @@ CLAIMED = {
               "inverse (Kani function contracts, all i32), the Rice split (q<<p)+r == zigzag(e) complete over i32 x 0..=14, the "
               "partition plumbing encode_residual_partition / encode_residual_with_prc_parameter for ANY block length (Verus on the real "
               "loops), is_constant for any length (Verus), two's-complement fields and Rice codes as written by both sinks (Kani, complete "
-              "per operation), subframe layouts on small blocks (Kani, bounded), frame number/range checks of the frame-level entry point."),
+              "per operation), subframe layouts on small blocks (Kani, bounded), frame number/range checks of the frame-level entry point; the residual WRITER "
+              "(Residual::write) and the crate's residual / LPC DECODERS (Residual::copy_signal, decode_lpc) for ANY block length, order "
+              "and warm-up (Verus: decode(encode(e)) == e, and the decoder reproduces s from the residual of s); frame assembly "
+              "encode_frame_impl / encode_frame (one subframe per channel in order, side channel one bit wider); every C02 unit "
+              "(a stream an independent decoder accepts must be well-formed)."),
         note=("Predictor inner loops (reset_fixed_lpc_errors, lpc::compute_error) are covered only by bounded units or not at all; the "
               "float LPC estimator is outside any contract; assumption A1 (exact LPC residual fits i32) is stated, not proved; the "
               "multi-thread path is unreachable for both verifiers."),
@@ -29,12 +33,15 @@ CLAIMED = {
         category="proof",
         text=("Finite code spaces are enumerated symbolically and therefore complete: every block size 1..65535, every u32 sample rate, "
               "every sample-size and channel code, every coded number < 2^36 (per byte-count class) against an RFC decoder; frame header "
-              "layout + CRC-8 per shape with symbolic field values; CRC tables against the bitwise polynomials; subframe/residual/"
+              "ASSEMBLY for every shape at once (Verus header_write over the complete leaf contracts) and bit-level layout + CRC-8 on sampled "
+              "shapes; Residual::write for any block / partition order / warm-up (Verus); encode_frame_impl: header codes agree with "
+              "STREAMINFO, one subframe per channel (Kani); CRC tables against the bitwise polynomials; subframe/residual/"
               "STREAMINFO/metadata layouts; frame = header ++ subframes ++ padding ++ CRC-16 and stream = fLaC ++ blocks ++ frames for any "
               "number of subframes/frames (Verus on Frame::write / Stream::write); frame numbering 0,1,2.. and full blocks for any number "
               "of frames (Verus on the real driver loop)."),
-        note=("Header shapes: 2 of 54 in the quick tier, 4 in the thorough tier (variant per shape concrete, payloads symbolic); subframe "
-              "bodies bounded to blocks of 4..7 samples; CRC tables checked for messages up to 17 bytes; Source behaviour per trait docs."),
+        note=("Bit-level header cross-checks: 2 of 54 shapes in the quick tier, 4 in the thorough tier (the assembly itself is proved for "
+              "all shapes); the Rice / two's-complement BIT PATTERNS are leaf contracts proved on the sinks (C11), the Verus units compose "
+              "them; CRC tables checked for messages up to 17 bytes; Source behaviour per trait docs."),
         technique=KANI + " + " + VERUS,
         design_ref="6 C02"),
     "C03": dict(
@@ -42,7 +49,9 @@ CLAIMED = {
         text=("Context::fill_interleaved feeds exactly the channel-interleaved little-endian bytes of the byte-rounded width for any number "
               "of samples, fill_le_bytes exactly the given bytes, both advance the counters identically (Verus on the real loops with the "
               "digest as a ghost byte sequence); the driver sets total_samples, the MD5 of everything delivered and the source's format for "
-              "any number of frames (Verus on the real driver); STREAMINFO field layout (Kani, all field values)."),
+              "any number of frames (Verus on the real driver); STREAMINFO field layout (Kani, all field values); Kani companions that run "
+              "the COMPILED bodies of Context::{fill_interleaved, fill_le_bytes, md5_digest} against a recording md-5 stand-in (blocks of "
+              "3/2/0 samples for every width, 66 and 133 samples for 3 and 7 channels); i32s_to_le_bytes for any length (Verus)."),
         note="md-5 itself is trusted (assumption A-deps); a foreign Source honours its documentation (A-src); the hashing thread of the multi-thread path is not reachable.",
         technique=VERUS + " + " + KANI,
         design_ref="6 C03"),
@@ -58,8 +67,11 @@ CLAIMED = {
         category="proof",
         text=("count_bits() == bits written, level by level: sink operations (C11 units), UTF-8 number and header extras (complete), frame "
               "header per shape, CONSTANT/VERBATIM/FIXED/LPC/RESIDUAL/STREAMINFO/metadata writers into an ideal bit string (Kani), cached "
-              "residual sums on both sides of the overflow switch, frame and stream assembly incl. the precomputed branch (Verus)."),
-        note="Subframe bodies bounded (block 4..7); Frame::count_bits's iterator sum is not extracted (closures) - its value is tied to written bits only through the component units.",
+              "residual sums on both sides of the overflow switch, frame and stream assembly incl. the precomputed branch (Verus); "
+              "Residual::write and Residual::count_bits against one bit-string spec for ANY block / order / warm-up (Verus residual_write, "
+              "residual_count); FrameHeader::write / count_bits for every header shape (Verus header_write); precompute_bitstream "
+              "stores exactly the bytes write() emits (Verus frame_precompute)."),
+        note="Frame::count_bits's iterator sum is not extracted (closures): bounded Kani unit only; cached quotient / parameter sums of a Residual are an assumed invariant of residual_count (established by from_parts: bounded Kani unit; re-checked by verify).",
         technique=KANI + " + " + VERUS,
         design_ref="6 C08"),
     "C09": dict(
@@ -77,7 +89,8 @@ CLAIMED = {
         text=("Sign-extending little-endian conversion for 1..4 bytes per sample against an independent spec (all byte values), its inverse, "
               "the channel-specialised de-interleavers (1, 2 quick; 3, 8 thorough; dispatcher 2..8) on arbitrary stale destination "
               "contents, and FrameBuf::fill_interleaved vs fill_le_bytes on differently dirty buffers: identical per-channel samples and "
-              "fill state; Context counters/MD5 input identical for both paths for any length (Verus context_fill)."),
+              "fill state; Context counters/MD5 input identical for both paths for any length (Verus context_fill) and on the compiled bodies "
+              "with a recording md-5 stand-in (Kani); i32s_to_le_bytes for any length (Verus)."),
         note="Lengths bounded (3 samples for conversions, stride 34 for the 32-way unrolled de-interleavers, capacity 2..3 for the buffer equivalence); values complete.",
         technique=KANI + " + " + VERUS,
         design_ref="6 C14"),
@@ -97,8 +110,8 @@ CLAIMED = {
         category="proof",
         text=("History independence = each scratch buffer's user produces its specified result from ARBITRARY previous buffer contents: "
               "fixed-predictor error vectors, mid/side frame buffer, SIMD cast buffer (reset_from_slice), de-interleave destination, "
-              "frame-buffer refill (full block then shorter), scratch sinks (clear), frame CRC buffer (Verus frame_write quantifies over an "
-              "arbitrary incoming buffer); the window cache key is injective on (size, window) over all f32 alphas."),
+              "frame-buffer refill (full block then shorter), scratch sinks (clear), frame CRC buffer and header CRC buffer (Verus frame_write / "
+              "header_write quantify over an arbitrary incoming scratch sink, e.g. one left behind by a failed write); the window cache key is injective on (size, window) over all f32 alphas."),
         note=("Bounded sizes for the dirty-buffer units (previous block of 16/32 samples etc.); PrcParameterFinder::find and the float "
               "LpcEstimator buffers are argued from clear/resize/fill semantics, not under contract; other threads: thread_local storage "
               "is per thread by construction (Rust TLS)."),
@@ -119,20 +132,21 @@ CLAIMED = {
         design_ref="6 C11"),
     "C12": dict(
         category="proof",
-        text=("Frame::write and Stream::write are verified by Verus against an ABSTRACT BitSink whose every operation may return Err: no "
-              "unwrap/expect on a fallible sink result is provable, the error is returned, and the sink content stays a prefix of the "
-              "correct bitstream (for any number of subframes / metadata blocks / frames)."),
-        note=("Sub-frame writers (CONSTANT/VERBATIM/FIXED/LPC): Verus subframe_write, any size. STREAMINFO / metadata block / unknown body / "
-              "frame header / residual writers: Kani units against a sink that fails at its k-th primitive operation, k symbolic (bounded "
-              "shapes). A user sink is assumed append-only on error as its trait documentation implies."),
+        text=("Stream::write, Frame::write, the four sub-frame writers, FrameHeader::write and Residual::write are verified by Verus against an "
+              "ABSTRACT BitSink whose every operation may return Err: no unwrap/expect on a fallible sink result is provable, the error is "
+              "returned, and the sink content stays a prefix of the correct bitstream - for any number of frames, subframes, samples, "
+              "partitions (the chain is unbounded from the stream down to the sink operations)."),
+        note=("STREAMINFO / metadata block / unknown body writers: Kani units against a sink that fails at its k-th primitive operation, k "
+              "symbolic (bounded shapes). try_repeat! (the unrolling macro inside Residual::write) is replaced by its loop semantics, which "
+              "Kani proves of the macro. A user sink is assumed append-only on error as its trait documentation implies."),
         technique=VERUS + " + " + KANI,
         design_ref="6 C12"),
     "C13": dict(
         category="proof",
         text=("PrcBitTable::minimizer == argmin with smallest-p tie-break over all tables below the saturation bound (Kani, 16 symbolic "
               "entries); merge == a+b-4 saturating (complete); finest_partition_order == largest admissible order (Kani function contract); "
-              "from_errors exact-or-saturated for residuals up to 2^28-2^24 (bounded n); the chosen parameters reach the Residual unchanged "
-              "(Verus)."),
+              "from_errors exact-or-saturated for residuals up to 2^28-2^24 (bounded n, incl. the unrolled 16-element path); merge_partitions "
+              "for any number of tables (Verus), eval_partitions (Kani); the chosen parameters reach the Residual unchanged (Verus)."),
         note=("Known finding F-C13-from-errors-wrap (u32 lane sums wrap for larger folded residuals). PrcParameterFinder::find: Verus prc_find "
               "(every order evaluated, cheapest returned, any number of partitions). Call sites: encode_residual and the bit-count order "
               "selection hand the search the CONFIGURED maximum for every sample width and apply what it returned (Kani)."),
@@ -143,12 +157,12 @@ CLAIMED = {
         text=("Parser o writer = identity on the leaf codes, complete over their code spaces (UTF-8 number per byte-count class, "
               "block-size and sample-rate codes, two's complement for widths 1..26, unary code on a byte), and on small components "
               "(CONSTANT, VERBATIM, one frame-header shape: parse of written bits returns the same component, consumes exactly "
-              "count_bits() bits, re-serialises identically); the crate's own decoder (residual, fixed and LPC synthesis in 64 bit, "
-              "stereo un-mixing) equals the independent RFC spec functions on small blocks."),
+              "count_bits() bits, re-serialises identically); the crate's own decoder: Residual::copy_signal and decode_lpc (fixed and LPC "
+              "synthesis) invert the encoder's residual for ANY block length and order (Verus), stereo un-mixing equals the RFC spec (Kani)."),
         note=("Bounded: nothing that goes through parser::residual (FIXED/LPC subframes, whole frames, whole streams) is within Kani's "
               "reach - nom's closure plumbing defeats constant propagation and two input bytes already exhaust memory; Verus does not "
               "accept nom combinators.  Those parts of the statement are NOT decided."),
-        technique=KANI,
+        technique=KANI + " + " + VERUS,
         design_ref="6 C15"),
     "C16": dict(
         category="proof",
